@@ -133,6 +133,24 @@ Theorem C17_session_all_defined_flag_irrelevant : forall parse_flt s ops src src
 Proof. exact session_all_defined_flag_irrelevant. Qed.
 Print Assumptions C17_session_all_defined_flag_irrelevant.
 
+(* Fourth wave.  "A strict CAS refuses to index a structure of a foreign type", for the CAS that load returns: its type
+   system is the supplied one (XmiLoadC17.loaded_ts: Cas.__init__ replaces None only), whatever that defines - every
+   subset of the user types may have been deleted from it, all of them and uima.tcas.DocumentAnnotation included - and
+   whatever a default type system would define.  Through every handle reached by get_view / create_view a strictly
+   loaded CAS refuses every type the supplied type system does not define and accepts its own; a lenient one accepts. *)
+Theorem C17_loaded_strict_refuses : forall parse_flt s dflt src t d c path tn,
+  load_entry parse_flt src s false t d = Ok c -> contains_exact s tn = false -> loaded_add s dflt c path tn = Err ERuntime.
+Proof. exact loaded_strict_refuses. Qed.
+Print Assumptions C17_loaded_strict_refuses.
+Theorem C17_loaded_lenient_accepts : forall parse_flt s dflt src t d c path tn,
+  load_entry parse_flt src s true t d = Ok c -> loaded_add s dflt c path tn = Ok tt.
+Proof. exact loaded_lenient_accepts. Qed.
+Print Assumptions C17_loaded_lenient_accepts.
+Theorem C17_loaded_strict_accepts_own : forall parse_flt s dflt src t d c path tn,
+  load_entry parse_flt src s false t d = Ok c -> contains_exact s tn = true -> loaded_add s dflt c path tn = Ok tt.
+Proof. exact loaded_strict_accepts_own. Qed.
+Print Assumptions C17_loaded_strict_accepts_own.
+
 (* regression witnesses: the mechanisms before 779cf12, 1700993 and 32a3d1b violate the statements above *)
 Theorem C17_copy_handle_old_refuted : exists h n, h_lenient h = true /\ h_lenient (copy_handle_old h n) = false.
 Proof. exact copy_handle_old_refuted. Qed.
@@ -197,4 +215,40 @@ Example C17_session_holds :
       (session (fun _ => None) ex_ts [SLoad SrcStr true false ex_doc; SLoad SrcFile false false ex_doc; SCreate ti_gone;
                                       SLoad SrcPath false true ex_doc; SLoad SrcStr true false ex_doc])
   = [Some ([[7]], [0; 7], true); None; Some ([[7; 9]], [0; 7; 9], false); Some ([[7; 9]], [0; 7; 9], true)].
+Proof. vm_compute. repeat split; reflexivity. Qed.
+
+(* non-vacuity, fourth wave: a type system that defines built-in types only (no user type, no
+   uima.tcas.DocumentAnnotation).  A document with a DocumentAnnotation and a my.Thing in two views is refused strictly
+   and loses both leniently (both views empty); the document without them loads strictly, and the CAS refuses a
+   uima.tcas.DocumentAnnotation (which a default type system defines) through the handle of either view, accepts a
+   uima.cas.TOP; the lenient CAS accepts *)
+Definition ts_bare : schema :=
+  [mkTi "uima.cas.TOP" ["uima.cas.TOP"] []; mkTi "uima.cas.NULL" ["uima.cas.NULL"; "uima.cas.TOP"] [];
+   mkTi "uima.cas.Sofa" ["uima.cas.Sofa"; "uima.cas.TOP"] []].
+Definition ex_doc4 : xdoc :=
+  [mkX NS_CAS "NULL" [(A_ID, "0")] [];
+   mkX "http:///uima/tcas.ecore" "DocumentAnnotation" [(A_ID, "2"); ("sofa", "1"); ("begin", "0"); ("end", "5"); ("language", "en")] [];
+   mkX "http:///my.ecore" "Thing" [(A_ID, "5"); ("sofa", "4"); ("begin", "0"); ("end", "3")] [];
+   mkX NS_CAS "Sofa" [(A_ID, "1"); ("sofaNum", "1"); ("sofaID", "_InitialView"); ("sofaString", "Hello")] [];
+   mkX NS_CAS "Sofa" [(A_ID, "4"); ("sofaNum", "2"); ("sofaID", "second"); ("sofaString", "Bye")] [];
+   mkX NS_CAS "View" [("sofa", "1"); ("members", "2")] [];
+   mkX NS_CAS "View" [("sofa", "4"); ("members", "5")] []].
+Example C17_bare_type_system_holds :
+  dropped_ids_okb ts_bare ex_doc4 = true /\ existsb (unknown ts_bare) ex_doc4 = true /\
+  forallb (fun e => negb (unknown ts_bare e)) (drop_unknown ts_bare ex_doc4) = true /\
+  contains_exact default_extra "uima.tcas.DocumentAnnotation" = true /\
+  load_entry (fun _ => None) SrcStr ts_bare false false ex_doc4 = Err ETypeNotFound /\
+  match load_entry (fun _ => None) SrcStr ts_bare true false ex_doc4 with
+  | Ok c => map (fun nv => (fst nv, lv_members (snd nv))) (lc_views c) = [("_InitialView", []); ("second", [])] /\
+            loaded_add ts_bare default_extra c ["second"] "uima.tcas.DocumentAnnotation" = Ok tt
+  | _ => False
+  end /\
+  match load_entry (fun _ => None) SrcFile ts_bare false false (drop_unknown ts_bare ex_doc4) with
+  | Ok c => map (fun nv => (fst nv, lv_members (snd nv))) (lc_views c) = [("_InitialView", []); ("second", [])] /\
+            loaded_add ts_bare default_extra c [] "uima.tcas.DocumentAnnotation" = Err ERuntime /\
+            loaded_add ts_bare default_extra c ["second"] "uima.tcas.DocumentAnnotation" = Err ERuntime /\
+            loaded_add ts_bare default_extra c ["second"; "_InitialView"] "my.Thing" = Err ERuntime /\
+            loaded_add ts_bare default_extra c ["second"] "uima.cas.TOP" = Ok tt
+  | _ => False
+  end.
 Proof. vm_compute. repeat split; reflexivity. Qed.
